@@ -170,7 +170,9 @@ func (m *Mix) Establish(starter int) bool {
 type IopScript struct {
 	Cfg SessCfg `json:"cfg"`
 	Ops []SOp   `json:"ops"`
-	WS  int     `json:"ws,omitempty"` // the reference opens with a whitespace-tagged text: 1 v1+v2+v3, 2 v2+v3, 3 v1+v2, 4 v3, 5 v1+v3
+	WS  int     `json:"ws,omitempty"`  // the reference opens with a whitespace-tagged text: 1 v1+v2+v3, 2 v2+v3, 3 v1+v2, 4 v3, 5 v1+v3
+	Pad int     `json:"pad,omitempty"` // > 0: the reference starts every record block with a padding record of Pad-1 bytes
+	KID int     `json:"kid,omitempty"` // the serial number the reference gives its first D-H key (0: 1 as libotr does; any number > 0 is legal)
 }
 
 func runC10Interop(sc *IopScript) *sim.Outcome {
@@ -180,6 +182,14 @@ func runC10Interop(sc *IopScript) *sim.Outcome {
 		polA = sim.PolWSStart
 	}
 	m := newMix(sc.Cfg, polA)
+	m.R.FirstKeyID = uint32(sc.KID)
+	m.R.PadFirst = sc.Pad
+	if sc.Pad > 0 {
+		o.Class("padding-before-other-records")
+	}
+	if sc.KID > 1 {
+		o.Class("reference-numbers-its-keys-from-n")
+	}
 	if sc.WS > 0 {
 		// the specification's tag: the base, then one 8-byte group per version offered, version 1 first
 		groups := [][][]byte{nil, {ref.WSV1, ref.WSV2, ref.WSV3}, {ref.WSV2, ref.WSV3}, {ref.WSV1, ref.WSV2}, {ref.WSV3}, {ref.WSV1, ref.WSV3}}[sc.WS%6]
@@ -352,13 +362,34 @@ func runC10Interop(sc *IopScript) *sim.Outcome {
 				n++
 				t := []byte(token(1, n) + " last words")
 				tl := []ref.TLV{{Type: ref.TLVDisconnected}}
+				if op.X&16 != 0 {
+					// the specification gives the record no fixed length: a value is to be ignored, not the record
+					tl[0].Val = []byte("bye")[:1+op.X%3]
+					o.Class("ref-disconnect-record-with-value")
+				}
 				if op.X&8 != 0 {
 					tl = append(tl, ref.TLV{Type: 0, Val: make([]byte, 5)})
+				}
+				if op.X&32 != 0 {
+					tl = append([]ref.TLV{{Type: 0, Val: make([]byte, op.X%4)}}, tl...)
+					o.Class("padding-before-other-records")
 				}
 				m.fromR(m.R.Send(t, tl...))
 				m.R.Encrypted = false
 				sentR = append(sentR, string(t))
 				o.Class("ref-disconnect-with-text")
+			} else if op.X&(16|32) != 0 {
+				tl := []ref.TLV{{Type: ref.TLVDisconnected}}
+				if op.X&16 != 0 {
+					tl[0].Val = []byte("bye")[:1+op.X%3]
+					o.Class("ref-disconnect-record-with-value")
+				}
+				if op.X&32 != 0 {
+					tl = append([]ref.TLV{{Type: 0, Val: make([]byte, op.X%4)}}, tl...)
+					o.Class("padding-before-other-records")
+				}
+				m.fromR(m.R.SendOpts(nil, ref.DataOpts{Flags: 1, TLVs: tl}))
+				m.R.Encrypted = false
 			} else {
 				m.fromR(m.R.End())
 			}
@@ -430,7 +461,13 @@ func runC10Interop(sc *IopScript) *sim.Outcome {
 			want := m.R.ExtraKeyFor()
 			val := append(ref.PutU32(nil, uint32(op.X)), op.S...)
 			nk := len(m.A.Sym)
-			m.fromR(m.R.Send(nil, ref.TLV{Type: ref.TLVExtraKey, Val: val}))
+			if op.X&1 == 1 {
+				// the order of records is the sender's business: padding (of any length) may come first
+				m.fromR(m.R.Send(nil, ref.TLV{Type: 0, Val: make([]byte, op.X%7)}, ref.TLV{Type: ref.TLVExtraKey, Val: val}))
+				o.Class("padding-before-other-records")
+			} else {
+				m.fromR(m.R.Send(nil, ref.TLV{Type: ref.TLVExtraKey, Val: val}))
+			}
 			m.Settle(onA, onR)
 			if len(m.A.Sym) != nk+1 || !bytes.Equal(m.A.Sym[nk].Key, want) || m.A.Sym[nk].Usage != uint32(op.X) || string(m.A.Sym[nk].Data) != op.S {
 				return o.Fail("C10/interop-extrakey-recv", "otr3 did not hand the receiver the key/usage the reference sent (got %d callbacks)", len(m.A.Sym)-nk)
@@ -511,6 +548,12 @@ func TestProp_C10_Interop(t *testing.T) {
 		if rapid.IntRange(0, 2).Draw(rt, "tagstart") == 0 {
 			sc.WS = rapid.IntRange(1, 5).Draw(rt, "tagform")
 		}
+		if rapid.IntRange(0, 3).Draw(rt, "padfirst") == 0 {
+			sc.Pad = rapid.IntRange(1, 9).Draw(rt, "pad")
+		}
+		if rapid.IntRange(0, 3).Draw(rt, "kidn") == 0 {
+			sc.KID = rapid.SampledFrom([]int{2, 3, 100, 70000}).Draw(rt, "kid")
+		}
 		if sc.Cfg.FragB > 0 && sc.Cfg.FragB < 8 {
 			sc.Cfg.FragB = 8
 		}
@@ -526,7 +569,7 @@ func TestProp_C10_Interop(t *testing.T) {
 				op.X = rapid.IntRange(0, 15).Draw(rt, "x")
 				op.S = rapid.SampledFrom([]string{"", "", "who?", "ünï"}).Draw(rt, "q")
 			case "endr":
-				op.X = rapid.IntRange(0, 15).Draw(rt, "how")
+				op.X = rapid.IntRange(0, 63).Draw(rt, "how")
 			case "endo", "refresh":
 				op.X = rapid.IntRange(0, 1).Draw(rt, "starter")
 			case "xko", "xkr":
